@@ -54,3 +54,42 @@ fn c06_level_overlap_search_never_skips_a_table_t3() {
 fn c06_level_overlap_search_never_skips_a_table_t2() {
 	level_overlap_search(2);
 }
+
+/// C07-O2: the level layout written into the manifest is read back exactly:
+/// Levels::decode(Levels::encode(l)) returns the table ids per level, in order (2 levels x (2,1) tables,
+/// symbolic ids; structure concrete).
+#[kani::proof]
+#[kani::unwind(6)]
+fn c07_levels_codec_roundtrip() {
+	let ids: [u64; 3] = kani::any();
+	let mut l0: Vec<Arc<Table>> = Vec::with_capacity(2);
+	l0.push(mk_table(ids[0], Some(&[1u8]), Some(&[2u8]), (Some(1), Some(1))));
+	l0.push(mk_table(ids[1], Some(&[3u8]), Some(&[4u8]), (Some(1), Some(1))));
+	let mut l1: Vec<Arc<Table>> = Vec::with_capacity(1);
+	l1.push(mk_table(ids[2], Some(&[1u8]), Some(&[9u8]), (Some(1), Some(1))));
+	let mut lv: Vec<Arc<Level>> = Vec::with_capacity(2);
+	lv.push(Arc::new(Level { tables: l0 }));
+	lv.push(Arc::new(Level { tables: l1 }));
+	let levels = Levels(lv);
+	let mut buf: Vec<u8> = Vec::with_capacity(32);
+	let r = levels.encode(&mut buf);
+	let ok = r.is_ok();
+	core::mem::forget(r);
+	assert!(ok, "Levels::encode failed");
+	assert!(buf.len() == 1 + 4 + 16 + 4 + 8, "manifest level section has an unexpected size");
+	let mut rd: &[u8] = &buf[..];
+	let d = Levels::decode(&mut rd);
+	match &d {
+		Ok(v) => {
+			assert!(v.len() == 2 && v[0].len() == 2 && v[1].len() == 1, "level shape changed in the round trip");
+			assert!(v[0][0] == ids[0] && v[0][1] == ids[1] && v[1][0] == ids[2], "table ids changed or reordered in the round trip");
+		}
+		Err(_) => assert!(false, "level section written by encode is rejected by decode"),
+	}
+	assert!(rd.is_empty(), "decode did not consume the whole level section");
+	kani::cover!(ids[0] > u32::MAX as u64, "table id above 32 bits");
+	kani::cover!(ids[0] == ids[2], "same id on two levels (decode does not care)");
+	core::mem::forget(d);
+	core::mem::forget(levels);
+	core::mem::forget(buf);
+}
